@@ -28,6 +28,9 @@ EVID = os.path.join(VERIF, "evidence")
 if os.environ.get("FSL_REPO", "/repo") != "/repo":
     # development runs against a scratch copy (mutants, seeded patches) never touch the committed evidence
     EVID = os.path.join(VERIF, "out", "evidence_scratch")
+if os.environ.get("VERIF_EVIDENCE_DIR"):
+    # validation runs (e.g. the thorough tier of every property before a commit) can keep the committed evidence untouched
+    EVID = os.environ["VERIF_EVIDENCE_DIR"]
 KNOWN = os.path.join(VERIF, "known_findings.json")
 
 
